@@ -360,6 +360,101 @@ def build_instance_files(scen: int) -> Scenario:
     return s
 
 
+# ------------------------------------------------------------------ two writers of the same file
+
+def build_status_pair(scen: int) -> Scenario:
+    """Two Status objects for the same status.txt (the StatusMonitor thread and the thread that
+    records the outcome both update the experiment's status file) with payloads of different length."""
+    import experiment.model.data as D
+    r = vlib.rng("C14", "pair", "status", scen)
+    s = Scenario("status", scen)
+    d = vlib.mkscratch("c14stp")
+    out = os.path.join(d, "output")
+    os.makedirs(out)
+    path = os.path.join(out, "status.txt")
+    stages = ["stage%d" % i for i in range(r.randint(1, 4))]
+    fixed = _dt.datetime(2026, 9, 25, 12, 0, 0, 123456)
+
+    def make(total, state, exit_status, desc):
+        st = D.Status(path, {}, stages)
+        st.setCreated(_dt.datetime(2026, 1, 2, 3, 4, 5, 678))
+        st.setCurrentStage(stages[-1])
+        st.setExperimentState(state)
+        st.setStageState(state)
+        st.setTotalProgress(total)
+        st.setExitStatus(exit_status)
+        if desc is not None:
+            st.setErrorDescription(desc)
+        return st
+
+    prev = make(0.25, "running", "N/A", None)
+    assert prev.update()
+    long_desc = "component stage0.x failed\nTraceback:\n" + "f" * [200, 3000, 9000, 20000][(scen // 2) % 4]
+    sa = make(0.5, "running", "N/A", None)
+    sb = make(1.0, "failed", "Failed", long_desc)
+    if scen % 2:
+        sa, sb = sb, sa            # the long payload is the one that gets interrupted
+
+    def upd(st):
+        def update():
+            D.datetime = FrozenDatetimeModule(fixed)
+            return st.update()
+        return update
+
+    s.watch = [out]
+    s.targets = {"status.txt": path}
+    s.loaders = {"status.txt": _load_status}
+    s.update_a, s.update_b = upd(sa), upd(sb)
+    s.update = s.update_a
+    s.blocked = None
+    s.describe.update({"pair": True, "long_description_bytes": len(long_desc), "long_is": "A" if scen % 2 else "B"})
+    s.cleanup_dirs = [d]
+    return s
+
+
+def build_keyoutputs_pair(scen: int) -> Scenario:
+    """Two OutputAgents of the same experiment (they share instanceDirectory.mtx_output)."""
+    r = vlib.rng("C14", "pair", "keyoutputs", scen)
+    s = Scenario("keyoutputs", scen)
+    n = r.randint(1, 3)
+    names = ["Key%03d" % i for i in range(n)]
+    files = ["out%03d.txt" % i for i in range(n)]
+    import experiment.runtime.output as O
+    exp, agent_a, loc, shadow_out = make_output_agent(names, files)
+    agent_b = O.OutputAgent(exp)
+    agent_a.process_stage(0)       # previous version
+    for k in names:
+        agent_b.dataReferences[k]["status"]["description"] = "written by the second agent " + "b" * r.randint(20, 200)
+    if scen % 2:
+        agent_a, agent_b = agent_b, agent_a
+    mtx = exp.instanceDirectory.mtx_output
+
+    def blocked():
+        if mtx.acquire(blocking=False):
+            mtx.release()
+            return False
+        return True
+
+    s.watch = [shadow_out]
+    s.targets = {"output.txt": os.path.join(shadow_out, "output.txt"),
+                 "output.json": os.path.join(shadow_out, "output.json")}
+    s.loaders = {"output.txt": _load_dosini, "output.json": _load_json}
+    s.update_a, s.update_b = (lambda: agent_a.process_stage(1)), (lambda: agent_b.process_stage(1))
+    s.update = s.update_a
+    s.blocked = blocked
+    s.describe.update({"pair": True, "key_outputs": n})
+    s.cleanup_dirs = [loc] + ([_shadow_root(shadow_out)] if _shadow_root(shadow_out) else [])
+    s._keep = (exp, agent_a, agent_b)
+    return s
+
+
+PAIR_BUILDERS = {"status": build_status_pair, "keyoutputs": build_keyoutputs_pair}
+
+
+def build_pair(writer: str, scen: int) -> Scenario:
+    return PAIR_BUILDERS[writer](scen)
+
+
 BUILDERS = {"status": build_status, "keyoutputs": build_keyoutputs, "details": build_details,
             "flowir_loop": build_flowir_loop, "instance_files": build_instance_files}
 
